@@ -25,8 +25,11 @@ def _root() -> str:
 
 def _template() -> str:
     if "template" not in _state:
+        import logging
+
         from redun.backends.db import RedunBackendDb
 
+        logging.getLogger("redun").setLevel(logging.CRITICAL)
         path = os.path.join(_root(), "template.db")
         b = RedunBackendDb(db_uri="sqlite:///" + path)
         b.load()
